@@ -1,0 +1,185 @@
+//go:build verif
+
+package db
+
+// Contracts for property C02 (no document content is disclosed outside the reader's channels):
+// the read-path authorisation functions of the db package. Comment-only; read by /verif/engine.
+// The specification vocabulary (userAuthAny = authorised(u, chs), userSeesColl, ...) is in auth/zz_verif_c02.go.
+
+//@ props C02
+
+// the collection's user is absent (admin access: no access control) or a well-formed user object
+//@ pred colUserWF(col *DatabaseCollectionWithUser) bool
+//@   is col.user == nil || userIfaceWF(col.user)
+
+// authorised(chs) for the collection's user: the user may read a revision whose channel set is chs
+//@ pred colAuth(col *DatabaseCollectionWithUser, chs base.Set) bool
+//@   is col.user == nil || userAuthAny(unbox(col.user, *auth.userImpl), col.ScopeName, col.Name, chs)
+
+// the user's roles can be resolved (otherwise authorisation fails with the loading error)
+//@ pred colRolesLoad(col *DatabaseCollectionWithUser) bool
+//@   is col.user == nil || isNilErr(rolesLoadErr(unbox(col.user, *auth.userImpl)))
+
+// the body-less stub handed out instead of a revision the user may not see: nothing but the identifying
+// metadata passed in, and a constant body ({} for a deletion, {"_removed":true} otherwise)
+//@ pred isStub(r DocumentRevision, docID string, revID string, cv *Version, deleted bool, history Revisions) bool
+//@   is r.DocID == docID && r.RevID == revID && r.CV == cv && r.Deleted == deleted && r.History == history &&
+//@      r.Channels == nil && r.Expiry == nil && r.Attachments == nil && r.Delta == nil && r.RevCacheValueDeltaLock == nil &&
+//@      !r.Removed && r.MemoryBytes == 0 && r.HlvHistory == "" &&
+//@      len(r.BodyBytes) == ite(deleted, len(base.EmptyDocument), len(RemovedRedactedDocument))
+
+// authorized-if-wildcard-default (a revision without channels, default collection, wildcard held through a role)
+// did not hold before the fix of finding F9 in auth.authorizeAnyChannel; FIXED, demonstration:
+// /verif/findings/F9_wildcard_through_role_test.go.
+//@ func DatabaseCollectionWithUser.authorizeUserForChannels
+//@   requires col != nil && col.DatabaseCollection != nil && colUserWF(col)
+//@   modifies unbox(col.user, *auth.userImpl).roles, unbox(col.user, *auth.userImpl).deletedRoles   // the lazily filled role cache of the user (GetRoles)
+//@   ensures[authorized-only-if] isAuthorized ==> colAuth(col, channels)
+//@   ensures[authorized-if]      len(channels) != 0 && colRolesLoad(col) && colAuth(col, channels) ==> isAuthorized
+//@   ensures[authorized-if-wildcard-named] !base.IsDefaultCollection(col.ScopeName, col.Name) && len(channels) == 0 && colRolesLoad(col) && colAuth(col, channels) ==> isAuthorized
+//@   ensures[authorized-if-wildcard-default] base.IsDefaultCollection(col.ScopeName, col.Name) && len(channels) == 0 && colRolesLoad(col) && colAuth(col, channels) ==> isAuthorized
+//@   ensures[redacted]           !isAuthorized ==> isStub(redactedRev, docID, revID, cv, isDeleted, history)
+//@   ensures[no-stub-otherwise]  isAuthorized ==> redactedRev == DocumentRevision{}
+
+// trimEncodedRevisionsToAncestor only writes into the fresh shallow copy it makes of revs (revtree.go: ShallowCopy,
+// then one map assignment on the copy); no object that existed before the call is changed. Results unspecified.
+//@ func trimEncodedRevisionsToAncestor
+//@   trusted
+
+// what a redacted result looks like to the client: identifying metadata and a constant-length body only
+//@ pred stubLike(r DocumentRevision, docID string, revID string, deleted bool) bool
+//@   is r.DocID == docID && r.RevID == revID && r.Deleted == deleted &&
+//@      r.Channels == nil && r.Expiry == nil && r.Attachments == nil && r.Delta == nil && !r.Removed && r.HlvHistory == "" &&
+//@      len(r.BodyBytes) == ite(deleted, len(base.EmptyDocument), len(RemovedRedactedDocument))
+
+// The revision handed to a client request (single/bulk/open-revs document reads, replication rev messages):
+//   disclosed-only-if  the cached revision (body, attachments, channels ...) is returned only to a reader who is
+//                      authorised for the revision's channels; every other successful result is the body-less stub
+//   readable           conversely the (live, available) current revision is returned to every authorised reader
+//@ func DatabaseCollectionWithUser.documentRevisionForRequest
+//@   requires db != nil && db.DatabaseCollection != nil && colUserWF(db)
+//@   modifies unbox(db.user, *auth.userImpl).roles, unbox(db.user, *auth.userImpl).deletedRoles   // the lazily filled role cache of the user (GetRoles)
+//@   ensures[disclosed-only-if] isNilErr(result1) ==> (colAuth(db, revision.Channels) && result0 == revision) || stubLike(result0, docID, revision.RevID, revision.Deleted)
+//@   ensures[error-is-empty]    !isNilErr(result1) ==> result0 == DocumentRevision{}
+//@   ensures[readable]          requestedVersion == "" && revision.BodyBytes != nil && !revision.Removed && !revision.Deleted && len(revision.Channels) != 0 && colRolesLoad(db) && colAuth(db, revision.Channels) ==> isNilErr(result1) && result0 == revision
+
+// ---- the channels of a revision ----
+
+// channel c is currently assigned to the document (present in the channel map and not marked removed)
+//@ pred activeChannel(sd *SyncData, c string) bool
+//@   is (c in sd.Channels) && (sd.Channels[c] == nil || sd.Channels[c].Seq == 0)
+
+// S is exactly the set of channels currently assigned to the document
+//@ pred isCurrentChannels(sd *SyncData, S base.Set) bool
+//@   is S != nil && (forall c string :: {c in S} (c in S) <==> activeChannel(sd, c)) && (len(S) == 0 <==> (forall c string :: {c in sd.Channels} !activeChannel(sd, c)))
+
+//@ func SyncData.getCurrentChannels
+//@   requires sd != nil
+//@   ensures[current] isCurrentChannels(sd, result)
+//@   ensures[fresh]   !old(allocated(result))
+//@   loop 1 invariant[fresh]   ch != nil && !old(allocated(ch))
+//@   loop 1 invariant[members] forall c string :: {c in ch} (c in ch) <==> (c in #visited) && activeChannel(sd, c)
+//@   loop 1 invariant[count]   len(ch) >= 0 && (len(ch) == 0 <==> (forall c string :: {c in #visited} !((c in #visited) && activeChannel(sd, c))))
+//@   loop 1 invariant[visited] forall c string :: {c in #visited} (c in #visited) ==> (c in sd.Channels)
+
+// revTreeID designates the document's current revision
+//@ pred isCurrentRev(doc *Document, revTreeID string) bool
+//@   is revTreeID == "" || doc.SyncData.GetRevTreeID() == revTreeID
+
+// Channel information is kept for the current revision (the channel map) and for leaves of the revision tree.
+//@ func Document.channelsForRevTreeID
+//@   requires doc != nil && treeWF(doc.History)
+//@   ensures[current] isCurrentRev(doc, revTreeID) ==> result1 && isCurrentChannels(doc.SyncData, result0) && !old(allocated(result0))
+//@   ensures[history] !isCurrentRev(doc, revTreeID) && (revTreeID in doc.History) ==> result0 == doc.History[revTreeID].Channels && (result1 <==> leafOf(doc.History, revTreeID))
+//@   ensures[unknown] !isCurrentRev(doc, revTreeID) && !(revTreeID in doc.History) ==> result0 == nil && !result1
+
+// userSees(c) for the collection's user
+//@ pred colSees(col *DatabaseCollectionWithUser, c string) bool
+//@   is userSeesColl(unbox(col.user, *auth.userImpl), col.ScopeName, col.Name, c)
+
+// authorised for the document's current channels, stated on the channel map itself:
+// some active channel is seen, or the document is in no channel and the wildcard is seen
+//@ pred curAuth(col *DatabaseCollectionWithUser, sd *SyncData) bool
+//@   is col.user == nil || ite(forall c string :: {c in sd.Channels} !activeChannel(sd, c), colSees(col, starCh()), exists c string :: {c in sd.Channels} activeChannel(sd, c) && colSees(col, c))
+
+//@ pred someActive(sd *SyncData) bool
+//@   is exists c string :: {c in sd.Channels} activeChannel(sd, c)
+
+// channel information exists for the revision: it is the current one or a leaf of the revision tree
+//@ pred revChannelsKnown(doc *Document, revid string) bool
+//@   is isCurrentRev(doc, revid) || ((revid in doc.History) && leafOf(doc.History, revid))
+
+// authorizeDoc checks the reader against the channels of the revision when they are known:
+//   current-*    the current revision: against the active channels of the channel map
+//   leaf-*       another leaf: against the channel set stored with it in the revision tree
+//   unchecked    for every other revid (unknown, or a NON-LEAF revision of the tree) it returns nil WITHOUT
+//                any channel check; callers must not release a body on that answer alone (see get1xRevFromDoc)
+//@ func DatabaseCollectionWithUser.authorizeDoc
+//@   requires col != nil && col.DatabaseCollection != nil && colUserWF(col) && (doc != nil ==> treeWF(doc.History))
+//@   modifies unbox(col.user, *auth.userImpl).roles, unbox(col.user, *auth.userImpl).deletedRoles   // the lazily filled role cache of the user (GetRoles)
+//@   ensures[current-only-if] doc != nil && isCurrentRev(doc, revid) && isNilErr(result) ==> curAuth(col, doc.SyncData)
+//@   ensures[current-if]      doc != nil && isCurrentRev(doc, revid) && someActive(doc.SyncData) && colRolesLoad(col) && curAuth(col, doc.SyncData) ==> isNilErr(result)
+//@   ensures[current-if-wildcard] doc != nil && isCurrentRev(doc, revid) && !someActive(doc.SyncData) && colRolesLoad(col) && curAuth(col, doc.SyncData) ==> isNilErr(result)
+//@   ensures[leaf-only-if]    doc != nil && !isCurrentRev(doc, revid) && revChannelsKnown(doc, revid) && isNilErr(result) ==> colAuth(col, doc.History[revid].Channels)
+//@   ensures[leaf-if]         doc != nil && !isCurrentRev(doc, revid) && revChannelsKnown(doc, revid) && len(doc.History[revid].Channels) != 0 && colRolesLoad(col) && colAuth(col, doc.History[revid].Channels) ==> isNilErr(result)
+//@   ensures[unchecked]       doc == nil || col.user == nil || !revChannelsKnown(doc, revid) ==> isNilErr(result)
+
+// authorised for the revision revid of doc (channel information must be known for it)
+//@ pred revAuth(col *DatabaseCollectionWithUser, doc *Document, revid string) bool
+//@   is ite(isCurrentRev(doc, revid), curAuth(col, doc.SyncData), (revid in doc.History) && leafOf(doc.History, revid) && colAuth(col, doc.History[revid].Channels))
+
+// get1xRevFromDoc (1.x-style body of a revision: _all_docs?include_docs, _bulk_get, resync):
+//   body-only-if-authorised   the revision body is loaded (getRevision: inline body, or the backup document of
+//                             an old revision) only for a reader who is authorised for that revision's channels,
+//                             or when the tree does not know the revision (getRevision then reports "missing").
+//   rev-channels-known        PRECONDITION pushed to the callers: the requested revision is the current one, a
+//                             leaf, or unknown. For a NON-LEAF revision of the tree authorizeDoc answers nil without
+//                             a channel check (channel sets are stored for leaves only) and the body, if still
+//                             available, would be released unchecked.
+//@ func DatabaseCollectionWithUser.get1xRevFromDoc
+//@   requires db != nil && db.DatabaseCollection != nil && colUserWF(db) && doc != nil && treeWF(doc.History)
+//@   requires[rev-channels-known] revChannelsKnown(doc, revid) || !(revid in doc.History)
+//@   modifies *
+//@   before[body-only-if-authorised] call getRevision#1 db.user == nil || !($3 in doc.History) || revAuth(db, doc, $3)
+
+// Loading a document from the bucket (storage read, on-demand import). TRUSTED, thin: whatever is loaded has a
+// well-formed revision tree (RevTree.UnmarshalJSON files every node under its own id: tree[id] = &RevInfo{ID: id}),
+// and nothing the read path relies on is written. Everything else about the result is unspecified.
+//@ func DatabaseCollection.GetDocument
+//@   trusted
+//@   ensures[tree-wf] doc != nil ==> treeWF(doc.History)
+
+// Get1xRevAndChannels (rest: _all_docs rows): loads the document and delegates to get1xRevFromDoc. The obligation
+// pre@get1xRevFromDoc#1/rev-channels-known is NOT dischargeable here for an arbitrary revID: a non-leaf revision
+// of the loaded document passes authorizeDoc unchecked (candidate finding; the only caller, handleAllDocs,
+// passes "" or the revision id of an index row, i.e. a revision that was current when it was indexed).
+//@ func DatabaseCollectionWithUser.Get1xRevAndChannels
+//@   requires db != nil && db.DatabaseCollection != nil && colUserWF(db)
+//@   modifies *
+
+// ---- attachments over the replication protocol ----
+
+// the allow-list key of an attachment: the same function is used when a sent revision adds its attachments
+// to the allow-list (addAllowedAttachments) and when they are taken off it again
+//@ func allowedAttachmentKey
+//@   pure
+
+//@ func BlipSyncContext.allowedAttachment
+//@   ensures[entry] result == bsc.allowedAttachments[digest]
+
+// getAttachment: the attachment of (docID, digest) is read from storage (and then placed in the response) only
+// if that pair is on the connection's allow-list, i.e. belongs to a revision this connection is being sent.
+//@ func blipHandler.handleGetAttachment
+//@   requires bh != nil && bh.BlipSyncContext != nil
+//@   modifies *
+//@   before[allow-listed] call MakeAttachmentKey#1 bh.allowedAttachments[allowedAttachmentKey($1, $2, bh.activeCBMobileSubprotocol)].counter > 0
+
+// ---- channels of the target revision of a cached delta ----
+
+// getRevisionChannels re-reads the channels of a revision for the access check of a delta-cache hit (GetDelta).
+// Thin contract: on every error path no channel set is handed back (GetDelta then fails instead of authorising
+// against stale channels). What the channels are on success (revision-cache entry, current channel map, or the
+// leaf's stored set) is not specified here: the document is local to the function.
+//@ func DatabaseCollection.getRevisionChannels
+//@   modifies *
+//@   ensures[deny-on-error] !isNilErr(err) ==> channels == nil && !deleted
